@@ -10,7 +10,9 @@ import json
 import os
 import time
 
-from .. import common, retmodel
+import z3
+
+from .. import common, retmodel, summary
 from .. import terms as tm
 
 
@@ -28,8 +30,111 @@ def consulted(rm, name):
     return out
 
 
+def capacity_gate(lf, year, cg, res):
+    """Unit-level row-capacity gate: the count input is symbolic in 0..rows+2 and
+    every other line the Schedule B lines read is a free symbol, so no copy has
+    to be instantiated.  The gate is met when some *required* line of the form
+    has no value path with count > rows (a required line without a value leaves
+    the return unsolved).  Otherwise z3's witness is turned into a concrete
+    (rows+1)-copy return, built from a solved one-copy witness of the
+    whole-return model, and run on the real Solver."""
+    rm = lf.rm
+    cat = summary.Catalogue(year)
+    form = cat.form(cg['form'])
+    rows = cg['rows']
+    req = [f for f in form.required_fields()]
+    summ = {}
+    for fld in req:
+        ps, _stats, complete = summary.summarise(cat, fld, int_bound=rows + 2, cents=True)
+        summ[fld.name()] = (ps, complete)
+        res['unit_paths'] = res.get('unit_paths', 0) + len(ps)
+    for cname, copy_form in sorted(cg['counts'].items()):
+        cnt = tm.var('i:' + cname, 'I')
+        over = tm.lt(tm.I(rows), cnt)
+        nm = 'ty%d/capacity/%s/%s' % (year, cg['name'], cname)
+        t1 = time.time()
+        guard = None
+        witness = None
+        unknown = False
+        for lname, (ps, complete) in sorted(summ.items()):
+            if not complete or any(p.kind in ('cut', 'unsupported') or p.unknown for p in ps):
+                unknown = True
+                continue
+            sat_here = False
+            for p in ps:
+                if p.kind != 'value':
+                    continue
+                s = z3.Solver()
+                s.set('timeout', 20000)
+                for c in list(p.conds) + list(p.assumes) + [over]:
+                    s.add(tm.to_z3(c))
+                r = str(s.check())
+                res['unit_queries'] = res.get('unit_queries', 0) + 1
+                if r == 'sat':
+                    sat_here = True
+                    if witness is None:
+                        m = s.model()
+                        witness = {'line': lname, 'count': int(tm.model_value(m, cnt))}
+                    break
+                if r != 'unsat':
+                    unknown = True
+                    sat_here = True
+                    break
+            if not sat_here and any(p.kind == 'not_implemented' for p in ps):
+                guard = lname
+                break
+        dt = time.time() - t1
+        desc = 'unit level, %s symbolic in 0..%d, all other reads free: some required line of %s has no value path with count > %d' % (cname, rows + 2, cg['form'], rows)
+        if guard is not None:
+            res['obl'].append((nm, 'unsat', dt, desc + ' [guarding line: %s]' % guard))
+            # reachability twin: the guarding line does have a value path within capacity
+            ps = summ[guard][0]
+            ok = False
+            for p in ps:
+                if p.kind != 'value':
+                    continue
+                s = z3.Solver()
+                for c in list(p.conds) + list(p.assumes) + [tm.le(cnt, tm.I(rows)), tm.le(tm.I(1), cnt)]:
+                    s.add(tm.to_z3(c))
+                if str(s.check()) == 'sat':
+                    ok = True
+                    break
+            res['obl'].append((nm + '-twin', 'unsat' if ok else 'vacuous', 0.0, 'reachability twin: %s has a value path with 1 <= count <= %d' % (guard, rows)))
+            continue
+        if witness is None or unknown and witness is None:
+            res['obl'].append((nm, 'unknown', dt, desc))
+            continue
+        # unit-level witness: confirm through the public API on a (rows+1)-copy return
+        part = cg['form'] + '.part_3'
+        extra = [rm.solved, tm.eq(cnt, tm.I(1))]
+        if part in rm.dem:
+            extra.append(rm.dem[part])
+        r, base, _m = lf.query(extra)
+        res['obl'].append((nm, 'sat' if r == 'sat' else 'unknown', dt, desc + ' [no guarding line; witness count=%d on %s]' % (witness['count'], witness['line'])))
+        if r != 'sat':
+            continue
+        I = cat.hab_inputs
+        n = max(witness['count'], rows + 1)
+        for place in ('last', 'first'):
+            inputs = dict((k, v) for k, v in base.items() if not k.startswith(copy_form + ':'))
+            inputs[cname] = str(n)
+            big = n - 1 if place == 'last' else 0
+            for k in range(n):
+                for key, val in base.items():
+                    if not key.startswith(copy_form + ':0.'):
+                        continue
+                    tail = key.split('.', 1)[1]
+                    if k != big and type(cat.input(key)) is I.FloatInput:
+                        val = '0'
+                    inputs['%s:%d.%s' % (copy_form, k, tail)] = val
+            res['viol'].append({'key': 'ty%d:capacity:%s:%s' % (year, cg['name'], cname), 'alt': place,
+                                'what': '%d copies of %s (Schedule B has %d rows) still yield a solved return' % (n, copy_form, rows),
+                                'replay': {'kind': 'solve', 'year': year, 'forms': ['1040'], 'inputs': inputs, 'expect': {'kind': 'solved'}}})
+
+
 def task(arg):
-    year, K, S, names, limit_gates, forms = arg
+    year, K, S, names, limit_gates, forms = arg[:6]
+    cap_gates = arg[6] if len(arg) > 6 else []
     os.environ['HV_PROCS'] = '1'
     lf = retmodel.Lifter(year, K, S, forms, timeout_ms=30000)
     rm = lf.rm
@@ -94,6 +199,9 @@ def task(arg):
                                         'replay': {'kind': 'solve', 'year': year, 'forms': forms, 'inputs': inputs, 'expect': {'kind': 'solved'}}})
                 r0, _, _ = lf.query([rm.solved, rm.dem[line], rm.valued[l2], rm.valued[l13], tm.lt(tm.R(1), rm.lvar[l2][1]), tm.le(rm.lvar[l2][1], rm.lvar[l13][1])], want_inputs=False)
                 res['obl'].append((nm + '-twin', 'unsat' if r0 == 'sat' else ('unknown' if r0 == 'unknown' else 'vacuous'), 0.0, 'twin: contribution within the limit solves'))
+    for cg in cap_gates:
+        if year in cg['years']:
+            capacity_gate(lf, year, cg, res)
     res['lf'] = dict(lf.stats)
     return res
 
@@ -114,7 +222,7 @@ def run(tier):
         names = gates['gates'][str(y)]
         nchunks = 5
         for i in range(nchunks):
-            tasks.append((y, K, S, names[i::nchunks], gates['limit_gates'] if i == 0 else [], ['1040']))
+            tasks.append((y, K, S, names[i::nchunks], gates['limit_gates'] if i == 0 else [], ['1040'], gates.get('capacity_gates', []) if i == 1 else []))
         for nm in gates.get('nc_gates', {}).get(str(y), []):
             tasks.append((y, K, S, [nm], [], ['1040', 'nc_d-400']))
     results = common.pmap(task, tasks)
@@ -129,10 +237,14 @@ def run(tier):
                 c.unknown += 1
                 continue
             c.obligation(nm, res, dt, sample={'obligation': nm, 'query': desc, 'result': res})
+        done = set()
         for v in r['viol']:
+            if v['key'] in done:
+                continue        # alternative placement of an already confirmed witness
             out = common.run_real(['solve'], v['replay'])
             c.replays_run += 1
             if out.get('reproduced'):
+                done.add(v['key'])
                 c.violation(v['key'], v['what'] + ' [real solve: %s]' % out.get('detail'), v['replay'])
             else:
                 c.spurious += 1
@@ -140,5 +252,7 @@ def run(tier):
         if r['lf']:
             c.solver_s += r['lf']['secs']
     c.paths += sum(v[1] for v in mp.values())
+    c.extra['capacity_gate_unit'] = {'paths': sum(r.get('unit_paths', 0) for r in results), 'queries': sum(r.get('unit_queries', 0) for r in results)}
+    c.paths += c.extra['capacity_gate_unit']['paths']
     c.extra['whole_return_model'] = {str(y): {'lines': v[0], 'symbolic_paths_composed': v[1]} for y, v in mp.items()}
     return c.finish()
